@@ -150,4 +150,17 @@ CHECKS["C20"] = {
     "technique": 'Lean 4 proof (restricted-growth numbering invariant, marginal-sum algebra, explicit Except outcomes) + differential correspondence on generated and pipeline-produced VCFs + direct Python oracle',
 }
 
+CHECKS["C13"] = {
+    "text": "Lean theorems over the model of call_posterior_haplotypes and the assemble label/GT/AFP/AOP/GP assignment: ALT iff non-reference and occurrence >= threshold in some sample; reference first; REFMASKED iff the reference met the criterion nowhere; no allele 0 in a masked record's GT; ALT order non-increasing in dosage summed over passing samples; '.' exactly for excluded haplotypes; sum AFP <= 1; GP has the record's G cardinality with each fully-called genotype's probability at its VCF index (C11 injectivity) and sums to <= 1, reference called or masked. Tied to the code by differential runs at function level and inside real assemble runs, plus text-level checks.",
+    "design_ref": "DESIGN.md section 4, C13",
+    "note": _NOTE + '`probs >= threshold` is a float comparison: thresholds within 1e-9 of an occurrence value are counted, not compared; argsort tie order is not modelled; text checks use 3-decimal printed values. Guards the F3 repair by signature.',
+    "technique": 'Lean 4 proof (insertion-ordered accumulator, stable sort, scatter lemmas, combinatorial-number-system injectivity) + differential correspondence + Fraction oracles + CLI recording',
+}
+CHECKS["C14"] = {
+    "text": 'Lean theorems over the model of the assemble and call trace classes: posterior(G) = #retained steps equal to G as multisets / #retained, sums to one, independent of within-step order; burn removes exactly n steps of every chain; mode, support probability, allele frequency / count / occurrence, the G-ordered array (C11 injectivity) and the incongruence flag are the stated functionals of that distribution. Tied to the code by exact (k/N) differential runs over all burn-ins and shuffled orderings.',
+    "design_ref": "DESIGN.md section 4, C14",
+    "note": _NOTE + "Call classes count stored rows; this is a multiset count because the samplers store sorted rows (proved conditional, checked on sampler output). Open known finding F10: assemble's replicate_incongruence uses the size of the first qualifying support as ploidy (partial theorem + machine-checked witnesses; the repair changes a golden file).",
+    "technique": 'Lean 4 proof (counting via Finset.sum_list_map_count, sorting-uniqueness, expectation lemma) + exact differential correspondence + Counter / metamorphic oracles',
+}
+
 NOT_APPLICABLE = {}
